@@ -1,9 +1,224 @@
 (** C06 -- streaming filter is consistent with queries; one delivery per
     notification.  This file holds only the property theorems, each closed by
-    [exact] of a lemma proved elsewhere, with [Print Assumptions] beneath. *)
-From Gnmi Require Import Base.Prelude CTree.CTreeModel Path.PathModel Match.MatchModel Match.MatchProofs.
+    [exact] of a lemma proved in Match/MatchProofs.v, with [Print Assumptions]
+    beneath.  Non-vacuity examples: MatchProofs.ex_*.
 
-Theorem C06_qmatch_implies_compat :
+    The model follows the code as it is now; three clauses are false of it
+    (C06_1..3, see docs/props/C06.md).  For those the file holds the
+    refutation on the current model, what is proved of the current model
+    ([_partial]) and the full clause over the model with the candidate patch
+    switched in ([_patched]: the [_gen] functions with the flag [true]).
+    The refutations are stated over the [_gen] functions with the flags
+    [false] -- definitionally [update_notification] / [add_subscription] as
+    long as MatchModel.fixed_C06_n = false -- so that switching a flag breaks
+    nothing here (the [_refuted] block of that defect is then deleted and the
+    [_patched] statement becomes the statement about the current model). *)
+From Gnmi Require Import Base.Prelude CTree.CTreeModel Path.PathModel
+  Match.MatchModel Match.MatchCheck Match.MatchProofs.
+
+(** ** offered iff compatible *)
+
+(** For every trie reachable from the empty one by any sequence of
+    registrations and removals (any paths, any clients, removals of pairs
+    never registered or already removed included), Match.Update offers the
+    node to client c iff some registered path of c agrees with the update path
+    on every element they both have. *)
+Theorem C06_offered_iff_compatible :
+  forall (h : list hop) (p : path) (c : cid),
+    In c (match_update (run_hist h) p) <->
+    exists q, In (q, c) (regs h) /\ compat q p = true.
+Proof. exact offered_iff_compatible. Qed.
+Print Assumptions C06_offered_iff_compatible.
+
+(** The same for a notification passed through subscribe.UpdateNotification
+    (whether or not the [updated] set is allocated). *)
+Theorem C06_notification_offered_iff :
+  forall (h : list hop) (prefix : path) (paths : list path) (c : cid),
+    In c (update_notification (run_hist h) prefix paths) <->
+    exists p q, In p paths /\ In (q, c) (regs h) /\ compat q (prefix ++ p) = true.
+Proof. exact (notification_offered_iff fixed_C06_1). Qed.
+Print Assumptions C06_notification_offered_iff.
+
+(** Go's random map iteration order cannot change who is called how often. *)
+Theorem C06_map_order_irrelevant :
+  forall (vs vs' : list cid) (u : option (list cid)),
+    Permutation vs vs' -> Permutation (fst (deliver vs u)) (fst (deliver vs' u)).
+Proof. exact deliver_perm. Qed.
+Print Assumptions C06_map_order_irrelevant.
+
+(** ** every leaf a query would return is streamed *)
+
+(** ctree.Query's relation is contained in the streaming relation. *)
+Theorem C06_query_relation_contained :
   forall q p : path, qmatch q p = true -> compat q p = true.
 Proof. exact qmatch_compat. Qed.
-Print Assumptions C06_qmatch_implies_compat.
+Print Assumptions C06_query_relation_contained.
+
+(** Full clause (every entry [e] of the list, with or without a path):
+
+      forall b c pre ents b' qs e fp t' ip,
+        wf b -> add_subscription b c pre ents = Some (b', qs) -> In e ents ->
+        complete_path pre (gp_of_opt e) = Ok fp -> gp_target pre <> "" ->
+        (gp_target pre = t' \/ gp_target pre = "*" \/ t' = "*") ->
+        qmatch fp ip = true -> In c (visit b' (t' :: ip)).
+
+    False of the code as it is (DEFECT C06_2): *)
+Theorem C06_query_implies_stream_refuted :
+  exists c pre ents b' qs e fp t' ip,
+    add_subscription_gen false false empty_branch c pre ents = Some (b', qs) /\
+    In e ents /\ complete_path pre (gp_of_opt e) = Ok fp /\
+    gp_target pre = t' /\ qmatch fp ip = true /\
+    ~ In c (visit b' (t' :: ip)).
+Proof. exact query_implies_stream_refuted. Qed.
+Print Assumptions C06_query_implies_stream_refuted.
+
+(** Proved of the code as it is: for every entry that has a path, on any
+    well-formed trie, whatever the other entries. *)
+Theorem C06_query_implies_stream_partial :
+  forall b c pre ents b' qs p fp t' ip,
+    wf b ->
+    add_subscription b c pre ents = Some (b', qs) ->
+    In (Some p) ents ->
+    complete_path pre p = Ok fp ->
+    gp_target pre <> "" ->
+    (gp_target pre = t' \/ gp_target pre = "*" \/ t' = "*") ->
+    qmatch fp ip = true ->
+    In c (visit b' (t' :: ip)).
+Proof. exact query_implies_stream_partial. Qed.
+Print Assumptions C06_query_implies_stream_partial.
+
+(** The full clause over the model with fixes/C06_2 switched in (either
+    setting of the C06_3 flag). *)
+Theorem C06_query_implies_stream_patched :
+  forall f3 b c pre ents b' qs e fp t' ip,
+    wf b ->
+    add_subscription_gen true f3 b c pre ents = Some (b', qs) ->
+    In e ents ->
+    complete_path pre (gp_of_opt e) = Ok fp ->
+    gp_target pre <> "" ->
+    (gp_target pre = t' \/ gp_target pre = "*" \/ t' = "*") ->
+    qmatch fp ip = true ->
+    In c (visit b' (t' :: ip)).
+Proof. exact query_implies_stream_patched. Qed.
+Print Assumptions C06_query_implies_stream_patched.
+
+(** ** at most once per notification *)
+
+(** Full clause:  forall b prefix paths c,
+      count_occ Nat.eq_dec (update_notification b prefix paths) c <= 1.
+    False of the code as it is (DEFECT C06_1), on a reachable trie: *)
+Theorem C06_at_most_once_refuted :
+  exists h prefix paths c,
+    (2 <= count_occ Nat.eq_dec (update_notification_gen false (run_hist h) prefix paths) c)%nat.
+Proof. exact at_most_once_refuted. Qed.
+Print Assumptions C06_at_most_once_refuted.
+
+(** Proved of the code as it is: notifications with two or more updates/deletes,
+    on any trie. *)
+Theorem C06_at_most_once_partial :
+  forall (b : branch) (prefix : path) (paths : list path) (c : cid),
+    (2 <= List.length paths)%nat ->
+    (count_occ Nat.eq_dec (update_notification b prefix paths) c <= 1)%nat.
+Proof. exact at_most_once_partial. Qed.
+Print Assumptions C06_at_most_once_partial.
+
+(** The full clause over the model with fixes/C06_1 switched in. *)
+Theorem C06_at_most_once_patched :
+  forall (b : branch) (prefix : path) (paths : list path) (c : cid),
+    (count_occ Nat.eq_dec (update_notification_gen true b prefix paths) c <= 1)%nat.
+Proof. exact at_most_once_patched. Qed.
+Print Assumptions C06_at_most_once_patched.
+
+(** ** never after removal; other subscribers unaffected *)
+
+(** After the removal closure of (q, c) has run, c is offered an update only
+    through another of its registered paths; for every history. *)
+Theorem C06_no_delivery_after_remove :
+  forall (h : list hop) (q : path) (c : cid) (p : path),
+    (forall q', In (q', c) (regs h) -> q' <> q -> compat q' p = false) ->
+    ~ In c (match_update (run_hist (h ++ [HRem q c])) p).
+Proof. exact no_delivery_after_remove. Qed.
+Print Assumptions C06_no_delivery_after_remove.
+
+(** Other clients -- registered with the same path or any other -- see no change. *)
+Theorem C06_remove_isolated :
+  forall (h : list hop) (q : path) (c : cid) (p : path) (c' : cid),
+    c' <> c ->
+    (In c' (match_update (run_hist (h ++ [HRem q c])) p) <-> In c' (match_update (run_hist h) p)).
+Proof. exact remove_isolated. Qed.
+Print Assumptions C06_remove_isolated.
+
+(** The removal closure is idempotent (on the trie itself, not only observably). *)
+Theorem C06_remove_idempotent :
+  forall (h : list hop) (q : path) (c : cid),
+    remove_root q c (remove_root q c (run_hist h)) = remove_root q c (run_hist h).
+Proof. exact remove_idempotent_hist. Qed.
+Print Assumptions C06_remove_idempotent.
+
+(** Pruning: once nothing is registered the trie is the empty trie again. *)
+Theorem C06_no_leak :
+  forall h : list hop, (forall q c, ~ In (q, c) (regs h)) -> run_hist h = empty_branch.
+Proof. exact no_leak. Qed.
+Print Assumptions C06_no_leak.
+
+(** Subscribe-level removal.  Full clause: after addSubscription followed by
+    its removal closure the registrations are those from before, minus this
+    client's own pairs:
+
+      forall b c pre ents b' qs q' c', wf b ->
+        add_subscription b c pre ents = Some (b', qs) ->
+        (In c' (clients_at (remove_all qs c b') q') <->
+         In c' (clients_at b q') /\ ~ (c' = c /\ In q' (sub_queries fixed_C06_2 pre ents))).
+
+    False of the code as it is (DEFECT C06_3): the client is still offered
+    updates after its subscription was removed. *)
+Theorem C06_unsubscribe_refuted :
+  exists c pre ents b' qs p,
+    add_subscription_gen false false empty_branch c pre ents = Some (b', qs) /\
+    In c (match_update (remove_all qs c b') p).
+Proof. exact unsubscribe_refuted. Qed.
+Print Assumptions C06_unsubscribe_refuted.
+
+(** Proved of the code as it is: subscription lists with a single entry. *)
+Theorem C06_unsubscribe_partial :
+  forall b c pre e b' qs q' c',
+    wf b ->
+    add_subscription b c pre [e] = Some (b', qs) ->
+    (In c' (clients_at (remove_all qs c b') q') <->
+     In c' (clients_at b q') /\ ~ (c' = c /\ In q' (sub_queries fixed_C06_2 pre [e]))).
+Proof. exact unsubscribe_partial. Qed.
+Print Assumptions C06_unsubscribe_partial.
+
+(** The full clause over the model with fixes/C06_3 switched in (either
+    setting of the C06_2 flag). *)
+Theorem C06_unsubscribe_patched :
+  forall f2 b c pre ents b' qs q' c',
+    wf b ->
+    add_subscription_gen f2 true b c pre ents = Some (b', qs) ->
+    (In c' (clients_at (remove_all qs c b') q') <->
+     In c' (clients_at b q') /\ ~ (c' = c /\ In q' (sub_queries f2 pre ents))).
+Proof. exact subscription_removed_gen. Qed.
+Print Assumptions C06_unsubscribe_patched.
+
+(** Registration itself is right on the code as it is, aliasing or not: the
+    trie after addSubscription holds exactly the old registrations plus the
+    client on each entry's path. *)
+Theorem C06_subscribe_registers :
+  forall b c pre ents b' qs q' c',
+    add_subscription b c pre ents = Some (b', qs) ->
+    (In c' (clients_at b' q') <->
+     In c' (clients_at b q') \/ (c' = c /\ In q' (sub_queries fixed_C06_2 pre ents))).
+Proof. exact subscribe_registers. Qed.
+Print Assumptions C06_subscribe_registers.
+
+(** ** the executable specification used on the implementation's observations *)
+
+Theorem C06_spec_sound :
+  forall s np ps offers hits c,
+    mem c (s_unspec s) = false ->
+    judge s true np ps offers hits c = [] ->
+    let live := regs_of c ps (s_reg s) in
+    let n := count_of c offers in
+    (live = [] <-> n = 0%nat) /\ (n <= 1)%nat /\ (mem c hits = true -> n <> 0%nat).
+Proof. exact judge_sound. Qed.
+Print Assumptions C06_spec_sound.
